@@ -17,6 +17,7 @@ import (
 	auctionsV2types "github.com/comdex-official/comdex/x/auctionsV2/types"
 	collectortypes "github.com/comdex-official/comdex/x/collector/types"
 	esmtypes "github.com/comdex-official/comdex/x/esm/types"
+	liq2types "github.com/comdex-official/comdex/x/liquidationsV2/types"
 	markettypes "github.com/comdex-official/comdex/x/market/types"
 	vaulttypes "github.com/comdex-official/comdex/x/vault/types"
 	tmproto "github.com/cometbft/cometbft/proto/tendermint/types"
@@ -202,7 +203,15 @@ func c01NewWorld(t *testing.T, tr *Trace, rng *Rng) *c01World {
 	w.addProduct("ATOMB", app2, pAD, p4)
 	for _, a := range w.apps {
 		_ = w.app.Rewardskeeper.WhitelistAppIDVault(w.ctx, a)
+		// second-generation liquidation with Dutch auctions enabled for the app
+		d := liq2types.DutchAuctionParam{Premium: dec("0.1"), Discount: dec("0.1"), DecrementFactor: sdk.NewInt(1)}
+		e := liq2types.EnglishAuctionParam{DecrementFactor: sdk.NewInt(1)}
+		w.app.NewliqKeeper.SetLiquidationWhiteListing(w.ctx, liq2types.LiquidationWhiteListing{AppId: a, Initiator: true, IsDutchActivated: true,
+			DutchAuctionParam: &d, IsEnglishActivated: false, EnglishAuctionParam: &e, KeeeperIncentive: dec("0.1")})
 	}
+	w.app.NewaucKeeper.SetAuctionParams(w.ctx, auctionsV2types.AuctionParams{AuctionDurationSeconds: 3600, Step: dec("0.1"),
+		WithdrawalFee: sdk.ZeroDec(), ClosingFee: sdk.ZeroDec(), MinUsdValueLeft: 100000, BidFactor: dec("0.1"),
+		LiquidationPenalty: dec("0.1"), AuctionBonus: sdk.ZeroDec()})
 	// module accounts exist on a live chain (created at first use); create them before anybody can send coins there
 	for _, m := range []string{vaulttypes.ModuleName, collectortypes.ModuleName, auctionsV2types.ModuleName} {
 		w.app.AccountKeeper.GetModuleAccount(w.ctx, m)
@@ -253,7 +262,18 @@ func (w *c01World) deliver(msg sdk.Msg) bool {
 	return true
 }
 
-func (w *c01World) effPrice(asset uint64) string {
+// effPrice is the price CalculateCollateralizationRatio will use for `asset` of a product of `app`: the ESM snapshot once
+// shutdown has been executed with a snapshot (no snapshot: the ratio cannot be computed), else the active oracle price.
+func (w *c01World) effPrice(app, asset uint64) string {
+	st, found := w.app.EsmKeeper.GetESMStatus(w.ctx, app)
+	if found && st.Status {
+		if st.SnapshotStatus {
+			if p, ok := w.app.EsmKeeper.GetSnapshotOfPrices(w.ctx, app, asset); ok {
+				return u(p)
+			}
+		}
+		return "-"
+	}
 	twa, found := w.app.MarketKeeper.GetTwa(w.ctx, asset)
 	if found && twa.IsPriceActive {
 		return u(twa.Twa)
@@ -286,7 +306,7 @@ func (w *c01World) env(app, prod, vaultID uint64, needIota bool) string {
 	}
 	pin, pout := "-", "-"
 	if p := w.productByID(prod); p != nil {
-		pin, pout = w.effPrice(p.assetIn), w.effPrice(p.assetOut)
+		pin, pout = w.effPrice(p.app, p.assetIn), w.effPrice(p.app, p.assetOut)
 	}
 	iota := "0"
 	if needIota {
@@ -472,6 +492,29 @@ func (w *c01World) oneOp() {
 		}
 		return vaulttypes.Vault{}, false
 	}
+	if r.Chance(3) {
+		// emergency controls: circuit breaker on/off, emergency shutdown with / without price snapshot and cool-off end
+		a := w.apps[r.Intn(len(w.apps))]
+		if r.Chance(60) {
+			ks, _ := w.app.EsmKeeper.GetKillSwitchData(w.ctx, a)
+			_ = w.app.EsmKeeper.SetKillSwitchData(w.ctx, esmtypes.KillSwitchParams{AppId: a, BreakerEnable: !ks.BreakerEnable})
+			w.tr.Count("op:breaker")
+		} else {
+			st, _ := w.app.EsmKeeper.GetESMStatus(w.ctx, a)
+			if st.Status {
+				st.Status = false
+			} else {
+				st = esmtypes.ESMStatus{AppId: a, Status: true, StartTime: w.now, EndTime: w.now.Add(time.Duration(r.Intn(72)) * time.Hour), SnapshotStatus: r.Chance(70)}
+				for _, id := range w.assetIDs {
+					if twa, f := w.app.MarketKeeper.GetTwa(w.ctx, id); f && r.Chance(90) {
+						w.app.EsmKeeper.SetSnapshotOfPrices(w.ctx, a, id, twa.Twa)
+					}
+				}
+			}
+			w.app.EsmKeeper.SetESMStatus(w.ctx, st)
+			w.tr.Count("op:esm")
+		}
+	}
 	switch c := r.Intn(100); {
 	case c < 6: // price move / deactivation
 		a := w.assetIDs[r.Intn(len(w.assetIDs))]
@@ -567,6 +610,31 @@ func (w *c01World) oneOp() {
 			}
 			ok := w.deliver(&vaulttypes.MsgWithdrawStableMintRequest{From: user.String(), AppId: app, ExtendedPairVaultId: p.id, Amount: amt, StableVaultId: sid})
 			emit("stableWithdraw", un, u(app), u(p.id), u(sid), amt.String(), env, ok)
+		}
+	case c < 50 && r.Chance(35):
+		// anyone asks the second-generation liquidation module to liquidate a vault (after a collateral price crash, often)
+		v, ok := pickVault()
+		if !ok {
+			return
+		}
+		vp := w.productByID(v.ExtendedPairVaultID)
+		if r.Chance(60) {
+			twa, _ := w.app.MarketKeeper.GetTwa(w.ctx, vp.assetIn)
+			np := twa.Twa * uint64(20+r.Intn(70)) / 100
+			if np == 0 {
+				np = 1
+			}
+			w.setPrice(vp.assetIn, np, true)
+		}
+		env := w.env(v.AppId, v.ExtendedPairVaultID, v.Id, true)
+		okk := w.deliver(&liq2types.MsgLiquidateInternalKeeperRequest{From: user.String(), LiqType: 0, Id: v.Id})
+		_, still := w.app.VaultKeeper.GetVault(w.ctx, v.Id)
+		w.tr.Count(fmt.Sprintf("op:liquidate:accepted=%v:seized=%v", okk, !still))
+		if okk && !still {
+			c01Seized[v.Id] = c01SeizedRec{world: w, in: v.AmountIn, out: v.AmountOut}
+			emit("seize", u(v.Id), "-", "-", "-", "-", env, true)
+		} else {
+			w.state()
 		}
 	default:
 		v, ok := pickVault()
